@@ -37,6 +37,7 @@ from .constants import DIAMETER_AGENT_CLIENT_MODE
 from .constants import DIAMETER_AGENT_SERVER_MODE
 from .constants import DIAMETER_AGENT_TRANSPORT_TYPE_TCP
 from .constants import DIAMETER_AGENT_TRANSPORT_TYPE_SCTP
+from .constants import DIAMETER_HEADER_LENGTH
 from .exceptions import AVPAttributeValueError
 from .exceptions import AVPParsingError
 from .exceptions import DataTypeError
@@ -103,6 +104,7 @@ class DiameterAssociation(object):
 
         self._recv_messages = queue.Queue()
         self._send_messages = queue.Queue()
+        self._recv_remainder = b""
 
         self.postprocess_recv_messages = queue.Queue() 
         self.postprocess_recv_messages_ready = threading.Event()
@@ -175,9 +177,14 @@ class DiameterAssociation(object):
                 self.lock.release()
                 break
 
-            data_stream = copy.copy(self.transport._recv_data_stream)
+            data_stream = self._recv_remainder + copy.copy(self.transport._recv_data_stream)
             self.transport._recv_data_stream = b""
             self.transport._recv_data_available.clear()
+
+            #: TCP delivers a byte stream, not messages: a read may end in 
+            #: the middle of a Diameter message. Only complete messages are 
+            #: handed to the parser; an incomplete tail waits for more data.
+            data_stream = self._take_complete_messages(data_stream)
 
             diameter_conn_logger.debug("Grabbing data stream from "\
                                        "Transport Layer to Diameter Layer.")
@@ -198,6 +205,26 @@ class DiameterAssociation(object):
 
             finally:
                 self.lock.release()
+
+
+    def _take_complete_messages(self, stream: bytes) -> bytes:
+        index = 0
+        while len(stream) - index >= DIAMETER_HEADER_LENGTH:
+            length = int.from_bytes(stream[index+1:index+4], byteorder="big")
+
+            if length < DIAMETER_HEADER_LENGTH:
+                #: There is no way to find the next message boundary: let 
+                #: the parser reject the whole chunk.
+                index = len(stream)
+                break
+
+            if len(stream) - index < length:
+                break
+
+            index += length
+
+        self._recv_remainder = stream[index:]
+        return stream[:index]
 
 
     def put_message_into_send_queue(self, msg: Type[DiameterMessage]) -> None:
